@@ -8,7 +8,7 @@ use std::path::{Path, PathBuf};
 use std::time::Instant;
 
 use proptest::strategy::{Strategy, ValueTree};
-use proptest::test_runner::{Config, RngAlgorithm, TestCaseError, TestError, TestRng, TestRunner};
+use proptest::test_runner::{Config, RngAlgorithm, TestRng, TestRunner};
 use serde::{Deserialize, Serialize};
 use serde_json::{json, Value};
 
@@ -277,40 +277,44 @@ pub fn judge_one<C: Serialize>(
     rep.record(ctx, &obs, &as_value)
 }
 
-/// Drive `cases` generated values of `strat` through `judge`; on a failure let proptest shrink it
-/// and record the minimal failing case. Keeps going after a failure (with the remaining budget) so
-/// that one shallow defect does not hide what lies behind it, up to a few distinct signatures.
-pub fn drive<T, S>(
-    ctx: &Ctx,
-    rep: &mut Report,
-    stream: &str,
-    strat: S,
-    cases: u64,
-    judge: &mut dyn FnMut(&T) -> Obs,
-) where
-    T: Debug + Serialize,
-    S: Strategy<Value = T>,
-{
-    if cases == 0 {
-        return;
+/// A proptest runner with a fixed seed that judges generated cases one at a time, shrinks
+/// failures (standard simplify/complicate walk; counters untouched while shrinking) and keeps
+/// going after a failure so that one shallow defect does not hide what lies behind it, up to a
+/// few distinct signatures.
+pub struct Driver {
+    runner: TestRunner,
+    failed_sigs: BTreeSet<String>,
+    pub stopped: bool,
+    stream: String,
+}
+
+impl Driver {
+    pub fn new(ctx: &Ctx, stream: &str) -> Self {
+        let config = Config {
+            cases: 1,
+            failure_persistence: None,
+            max_shrink_iters: 4096,
+            max_global_rejects: 65536,
+            ..Config::default()
+        };
+        let rng = TestRng::from_seed(RngAlgorithm::ChaCha, &ctx.stream_seed(stream));
+        Driver { runner: TestRunner::new_with_rng(config, rng), failed_sigs: BTreeSet::new(), stopped: false, stream: stream.to_string() }
     }
-    let config = Config {
-        cases: 1,
-        failure_persistence: None,
-        max_shrink_iters: 4096,
-        max_global_rejects: 65536,
-        ..Config::default()
-    };
-    let rng = TestRng::from_seed(RngAlgorithm::ChaCha, &ctx.stream_seed(stream));
-    let mut runner = TestRunner::new_with_rng(config, rng);
-    let mut failed_sigs: BTreeSet<String> = BTreeSet::new();
-    let mut done = 0u64;
-    while done < cases {
-        done += 1;
-        let mut tree = match strat.new_tree(&mut runner) {
+
+    /// Generate one value of `strat` and judge it.
+    pub fn one<T, S>(&mut self, ctx: &Ctx, rep: &mut Report, strat: &S, judge: &mut dyn FnMut(&T) -> Obs)
+    where
+        T: Debug + Serialize,
+        S: Strategy<Value = T>,
+    {
+        if self.stopped {
+            return;
+        }
+        let mut tree = match strat.new_tree(&mut self.runner) {
             Ok(t) => t,
             Err(reason) => {
                 rep.inconclusive.push(format!("generator rejected: {reason}"));
+                self.stopped = true;
                 return;
             }
         };
@@ -318,14 +322,11 @@ pub fn drive<T, S>(
         let as_value = || serde_json::to_value(&value).unwrap_or(Value::Null);
         journal(ctx, &as_value);
         let obs = judge(&value);
-        let is_fail = obs.fail.is_some()
-            && !ctx.known.contains(&obs.fail.as_ref().unwrap().0);
+        let is_fail = obs.fail.is_some() && !ctx.known.contains(&obs.fail.as_ref().unwrap().0);
         if !is_fail {
             rep.record(ctx, &obs, &as_value);
-            continue;
+            return;
         }
-        // Shrink: standard simplify/complicate walk, judged by "still fails with an unknown
-        // signature". Counters are not touched while shrinking.
         let mut best = value;
         let mut best_obs = obs;
         let mut iters = 0;
@@ -355,17 +356,37 @@ pub fn drive<T, S>(
         }
         let sig = best_obs.fail.as_ref().unwrap().0.clone();
         let bv = || serde_json::to_value(&best).unwrap_or(Value::Null);
-        if failed_sigs.insert(sig) {
+        if self.failed_sigs.insert(sig) {
             rep.record(ctx, &best_obs, &bv);
         } else {
             rep.evaluations += 1;
         }
-        if failed_sigs.len() >= 3 {
-            rep.notes.push(format!("stream {stream}: stopped after 3 distinct failure signatures"));
-            return;
+        if self.failed_sigs.len() >= 3 {
+            rep.notes.push(format!("stream {}: stopped after 3 distinct failure signatures", self.stream));
+            self.stopped = true;
         }
     }
-    let _ = (TestCaseError::fail("unused"), None::<TestError<()>>);
+}
+
+/// Drive `cases` generated values of `strat` through `judge`.
+pub fn drive<T, S>(
+    ctx: &Ctx,
+    rep: &mut Report,
+    stream: &str,
+    strat: S,
+    cases: u64,
+    judge: &mut dyn FnMut(&T) -> Obs,
+) where
+    T: Debug + Serialize,
+    S: Strategy<Value = T>,
+{
+    let mut d = Driver::new(ctx, stream);
+    for _ in 0..cases {
+        if d.stopped {
+            break;
+        }
+        d.one(ctx, rep, &strat, judge);
+    }
 }
 
 // ---------------------------------------------------------------------------------------------
